@@ -73,6 +73,10 @@ EXPLANATION += (
     ' Round 8: gt0 / gt1 / ge1 count cells above 0, above 1 and above 1 - eps (R-ARITH/count-thresholds).'
 )
 
+EXPLANATION += (
+    " Round 9: no user of a TaxonomyTree accessor that hands out the tree's own container edits it (R-ALIAS/tree-state, whole package)."
+)
+
 RULE_TEXT = (
     "one obligation per key of each producer, per required read, per "
     "merge loop, per statistic, per use of the row index")
